@@ -273,12 +273,56 @@ func init() {
 	conc2 := func(f func(a, b string) Value) intrinsic {
 		return func(c *Ctx, a []Value) Value { return f(strArg(a[0]).MustGo(), strArg(a[1]).MustGo()) }
 	}
-	intrinsics["strings.Index"] = conc2(func(a, b string) Value { return int64(strings.Index(a, b)) })
-	intrinsics["strings.LastIndex"] = conc2(func(a, b string) Value { return int64(strings.LastIndex(a, b)) })
-	intrinsics["strings.Count"] = conc2(func(a, b string) Value { return int64(strings.Count(a, b)) })
+	// searches: concrete arguments go to the real implementation; a text with symbolic bytes is searched position by
+	// position, each candidate position decided by the solver (ropes with decimal atoms are outside the model)
+	intrinsics["strings.Index"] = func(c *Ctx, a []Value) Value { return c.symIndex(strArg(a[0]), strArg(a[1]), false) }
+	intrinsics["strings.LastIndex"] = func(c *Ctx, a []Value) Value { return c.symIndex(strArg(a[0]), strArg(a[1]), true) }
+	intrinsics["strings.Count"] = func(c *Ctx, a []Value) Value {
+		s, sep := strArg(a[0]), strArg(a[1])
+		if g, ok := s.Go(); ok {
+			if h, ok := sep.Go(); ok {
+				return int64(strings.Count(g, h))
+			}
+		}
+		if l, _ := sep.Len(); l == 0 || s.HasAtom() || sep.HasAtom() {
+			c.Unsupported("strings.Count on this symbolic text")
+		}
+		n := int64(0)
+		u, nd := s.Units(), sep.Units()
+		for i := 0; i+len(nd) <= len(u); {
+			if c.Branch(c.matchUnits(u, i, nd)) {
+				n++
+				i += len(nd)
+			} else {
+				i++
+			}
+		}
+		return n
+	}
 	intrinsics["strings.EqualFold"] = conc2(func(a, b string) Value { return strings.EqualFold(a, b) })
-	intrinsics["strings.ContainsAny"] = conc2(func(a, b string) Value { return strings.ContainsAny(a, b) })
-	intrinsics["strings.IndexAny"] = conc2(func(a, b string) Value { return int64(strings.IndexAny(a, b)) })
+	intrinsics["strings.ContainsAny"] = func(c *Ctx, a []Value) Value {
+		s, set := strArg(a[0]), strArg(a[1]).MustGo()
+		if g, ok := s.Go(); ok {
+			return strings.ContainsAny(g, set)
+		}
+		acc := c.B.False
+		for _, u := range s.Units() {
+			acc = c.B.Or(acc, c.unitIn(u, set))
+		}
+		return fromBoolTerm(acc)
+	}
+	intrinsics["strings.IndexAny"] = func(c *Ctx, a []Value) Value {
+		s, set := strArg(a[0]), strArg(a[1]).MustGo()
+		if g, ok := s.Go(); ok {
+			return int64(strings.IndexAny(g, set))
+		}
+		for i, u := range s.Units() {
+			if c.Branch(c.unitIn(u, set)) {
+				return int64(i)
+			}
+		}
+		return int64(-1)
+	}
 	intrinsics["strings.Fields"] = func(c *Ctx, a []Value) Value {
 		s := strArg(a[0])
 		if g, ok := s.Go(); ok {
@@ -307,7 +351,18 @@ func init() {
 		return mkStrSlice(out)
 	}
 	intrinsics["strings.IndexByte"] = func(c *Ctx, a []Value) Value {
-		return int64(strings.IndexByte(strArg(a[0]).MustGo(), byte(a[1].(int64))))
+		b, ok := a[1].(int64)
+		if !ok {
+			c.Unsupported("strings.IndexByte with a symbolic byte")
+		}
+		return c.symIndex(strArg(a[0]), Conc(string([]byte{byte(b)})), false)
+	}
+	intrinsics["strings.LastIndexByte"] = func(c *Ctx, a []Value) Value {
+		b, ok := a[1].(int64)
+		if !ok {
+			c.Unsupported("strings.LastIndexByte with a symbolic byte")
+		}
+		return c.symIndex(strArg(a[0]), Conc(string([]byte{byte(b)})), true)
 	}
 	intrinsics["strings.Title"] = func(c *Ctx, a []Value) Value { return Conc(strings.Title(strArg(a[0]).MustGo())) }
 	intrinsics["strconv.FormatBool"] = func(c *Ctx, a []Value) Value {
@@ -641,8 +696,8 @@ func intrUnquote(c *Ctx, a []Value) Value {
 		}
 		return c.Branch(c.B.Eq(u.B, c.B.BV(uint64(ch), 8)))
 	}
-	if len(units) == 4 && isCh(units[0], '"') && isCh(units[1], '\\') && isCh(units[3], '"') && units[2].B != nil {
-		b := units[2].B
+	if len(units) == 4 && isCh(units[0], '"') && isCh(units[1], '\\') && isCh(units[3], '"') && units[2].D == nil {
+		b := unitByte(c.B, units[2])
 		table := []struct {
 			ch  byte
 			out string
@@ -762,6 +817,54 @@ func (c *Ctx) HasSuffix(s, p Str) *sym.Term {
 		}
 	}
 	return acc
+}
+
+// matchUnits: the needle units equal the text units from position i on.
+func (c *Ctx) matchUnits(u []Seg, i int, nd []Seg) *sym.Term {
+	acc := c.B.True
+	for k, n := range nd {
+		acc = c.B.And(acc, c.StrEq(unitsStr(u[i+k:i+k+1]), unitsStr([]Seg{n})))
+		if acc.IsFalse() {
+			return acc
+		}
+	}
+	return acc
+}
+
+// symIndex: strings.Index / LastIndex on ropes; every candidate position is a solver-decided branch.
+func (c *Ctx) symIndex(s, sep Str, last bool) Value {
+	if g, ok := s.Go(); ok {
+		if h, ok := sep.Go(); ok {
+			if last {
+				return int64(strings.LastIndex(g, h))
+			}
+			return int64(strings.Index(g, h))
+		}
+	}
+	if s.HasAtom() || sep.HasAtom() {
+		c.Unsupported("string search in a text with a decimal atom")
+	}
+	u, nd := s.Units(), sep.Units()
+	if len(nd) == 0 {
+		if last {
+			return int64(len(u))
+		}
+		return int64(0)
+	}
+	if !last {
+		for i := 0; i+len(nd) <= len(u); i++ {
+			if c.Branch(c.matchUnits(u, i, nd)) {
+				return int64(i)
+			}
+		}
+		return int64(-1)
+	}
+	for i := len(u) - len(nd); i >= 0; i-- {
+		if c.Branch(c.matchUnits(u, i, nd)) {
+			return int64(i)
+		}
+	}
+	return int64(-1)
 }
 
 func (c *Ctx) unitIn(u Seg, cutset string) *sym.Term {
